@@ -43,4 +43,91 @@ theorem C07_bare_string_stable (c : EncCfg) (s : Str) (h : encodeValue c (.str s
     ∃ v, decodeSimple c.d s = .ok v ∧ encodeValue c v = .ok s :=
   ⟨.str s, C01_bare_string_roundtrip c s h, h⟩
 
+
+theorem defaultTz_cases (g : Grammar) : defaultTz g = none ∨ defaultTz g = some 0 := by
+  unfold defaultTz; split <;> simp
+
+/-- **C07, times and date-times under the PVL / ISIS encoders**: dump → load → dump gives the same text (the
+    value may have been normalised to the default zone on the way; the text does not change) -/
+theorem C07_time_stable_pvl (c : EncCfg) (hk : c.kind = .pvl ∨ c.kind = .isis)
+    (hg : TimeTablesOK c.d.g = true) (h mi s us : Nat) (hv : ValidTime h mi s us)
+    (hp : c.d.kind = .pds → us % 1000 = 0) (tz : Option Int) (htz : tz = none ∨ tz = some 0) :
+    ∃ text, encodeValue c (.time h mi s us tz) = .ok text ∧
+      ∃ v, decodeDatetime c.d text = .ok v ∧ encodeValue c v = .ok text := by
+  obtain ⟨text, h1, h2⟩ := C14_time_roundtrip_pvl c hk hg h mi s us hv hp tz htz
+  refine ⟨text, h1, _, h2, ?_⟩
+  have ht : text = encodeTimeBase h mi s us := by
+    rcases hk with hk | hk <;> rcases htz with rfl | rfl <;>
+      simp [encodeValue, encodeSimple, encodeTime, hk] at h1 <;> exact h1.symm
+  rw [ht]
+  rcases hk with hk | hk <;> rcases defaultTz_cases c.d.g with e | e <;>
+    simp [encodeValue, encodeSimple, encodeTime, hk, e]
+
+theorem C07_datetime_stable_pvl (c : EncCfg) (hk : c.kind = .pvl ∨ c.kind = .isis)
+    (hg : DtTablesOK c.d.g = true) (y m d h mi s us : Nat) (hd : ValidDate y m d) (hv : ValidTime h mi s us)
+    (hp : c.d.kind = .pds → us % 1000 = 0) (tz : Option Int) (htz : tz = none ∨ tz = some 0) :
+    ∃ text, encodeValue c (.datetime y m d h mi s us tz) = .ok text ∧
+      ∃ v, decodeDatetime c.d text = .ok v ∧ encodeValue c v = .ok text := by
+  obtain ⟨text, h1, h2⟩ := C14_datetime_roundtrip_pvl c hk hg y m d h mi s us hd hv hp tz htz
+  refine ⟨text, h1, _, h2, ?_⟩
+  have ht : encodeValue c (.datetime y m d h mi s us (defaultTz c.d.g)) = encodeValue c (.datetime y m d h mi s us tz) := by
+    rcases hk with hk | hk <;> rcases htz with rfl | rfl <;> rcases defaultTz_cases c.d.g with e | e <;>
+      simp [encodeValue, encodeSimple, encodeTime, hk, e]
+  rw [ht, h1]
+
+/-- **C07, ODL**: UTC and offset times / date-times are reproduced exactly (the value read back is the value
+    written, C14) -/
+theorem C07_time_stable_odl (c : EncCfg) (hk : c.kind = .odl) (hdk : c.d.kind = .odl)
+    (hg : OdlTablesOK c.d.g = true) (h mi s us : Nat) (hv : ValidTime h mi s us) (off : Int) (h0 : off ≠ 0)
+    (h60 : off.natAbs % 60 = 0) (h12 : off.natAbs / 3600 ≤ 12) :
+    ∃ text, encodeValue c (.time h mi s us (some off)) = .ok text ∧
+      ∃ v, decodeDatetime c.d text = .ok v ∧ encodeValue c v = .ok text := by
+  obtain ⟨text, h1, h2⟩ := C14_time_roundtrip_odl_offset c hk hdk hg h mi s us hv off h0 h60 h12
+  exact ⟨text, h1, _, h2, h1⟩
+
+theorem C07_datetime_stable_odl (c : EncCfg) (hk : c.kind = .odl) (hdk : c.d.kind = .odl)
+    (hg : OdlDtTablesOK c.d.g = true) (y m d h mi s us : Nat) (hd : ValidDate y m d) (hv : ValidTime h mi s us)
+    (off : Int) (h0 : off ≠ 0) (h60 : off.natAbs % 60 = 0) (h12 : off.natAbs / 3600 ≤ 12) :
+    ∃ text, encodeValue c (.datetime y m d h mi s us (some off)) = .ok text ∧
+      ∃ v, decodeDatetime c.d text = .ok v ∧ encodeValue c v = .ok text := by
+  obtain ⟨text, h1, h2⟩ := C14_datetime_roundtrip_odl_offset c hk hdk hg y m d h mi s us hd hv off h0 h60 h12
+  exact ⟨text, h1, _, h2, h1⟩
+
+theorem C07_datetime_stable_odl_utc (c : EncCfg) (hk : c.kind = .odl) (hg : DtTablesOK c.d.g = true)
+    (y m d h mi s us : Nat) (hd : ValidDate y m d) (hv : ValidTime h mi s us)
+    (hp : c.d.kind = .pds → us % 1000 = 0) :
+    ∃ text, encodeValue c (.datetime y m d h mi s us (some 0)) = .ok text ∧
+      ∃ v, decodeDatetime c.d text = .ok v ∧ encodeValue c v = .ok text := by
+  obtain ⟨text, h1, h2⟩ := C14_datetime_roundtrip_odl_utc c hk hg y m d h mi s us hd hv hp
+  exact ⟨text, h1, _, h2, h1⟩
+
+/-- **C07, PDS3**: a naive or UTC time of whole milliseconds is written, read back as UTC, and written again
+    as the same text -/
+theorem C07_time_stable_pds (c : EncCfg) (hk : c.kind = .pds) (hdk : c.d.kind = .pds)
+    (hg : TimeTablesOK6 c.d.g = true) (hutc : c.d.g.defaultUtc = true) (h mi s us : Nat)
+    (hv : ValidTime h mi s us) (hp : us % 1000 = 0) (tz : Option Int) (htz : tz = none ∨ tz = some 0) :
+    ∃ text, encodeValue c (.time h mi s us tz) = .ok text ∧
+      ∃ v, decodeDatetime c.d text = .ok v ∧ encodeValue c v = .ok text := by
+  obtain ⟨text, h1, h2⟩ := C14_time_roundtrip_pds c hk hdk hg hutc h mi s us hv hp tz htz
+  refine ⟨text, h1, _, h2, ?_⟩
+  have e1 := encodeTime_pds c hk h mi s us hp tz htz
+  have e2 := encodeTime_pds c hk h mi s us hp (some 0) (Or.inr rfl)
+  simp only [encodeValue, encodeSimple] at h1 ⊢
+  rw [e2, ← e1, h1]
+
+theorem C07_datetime_stable_pds (c : EncCfg) (hk : c.kind = .pds) (hdk : c.d.kind = .pds)
+    (hg : DtTablesOK c.d.g = true) (hutc : c.d.g.defaultUtc = true) (y m d h mi s us : Nat)
+    (hd : ValidDate y m d) (hv : ValidTime h mi s us) (hp : us % 1000 = 0) (tz : Option Int)
+    (htz : tz = none ∨ tz = some 0) :
+    ∃ text, encodeValue c (.datetime y m d h mi s us tz) = .ok text ∧
+      ∃ v, decodeDatetime c.d text = .ok v ∧ encodeValue c v = .ok text := by
+  obtain ⟨text, h1, h2⟩ := C14_datetime_roundtrip_pds c hk hdk hg hutc y m d h mi s us hd hv hp tz htz
+  refine ⟨text, h1, _, h2, ?_⟩
+  have e1 := encodeTime_pds c hk h mi s us hp tz htz
+  have e2 := encodeTime_pds c hk h mi s us hp (some 0) (Or.inr rfl)
+  simp only [encodeValue, encodeSimple] at h1 ⊢
+  rw [e2, ← e1]
+  exact h1
+
+
 end Pvl
